@@ -318,6 +318,8 @@ struct ResponseDecoderInner<R> {
     iter: ResponseIter,
     stack: SmallVec<[blake3::Hash; 10]>,
     encoded: R,
+    /// the root hash, kept separately since the stack is consumed while decoding
+    hash: blake3::Hash,
 }
 
 impl<R> ResponseDecoderInner<R> {
@@ -328,6 +330,7 @@ impl<R> ResponseDecoderInner<R> {
             iter: ResponseIter::new(tree, ranges),
             stack: SmallVec::new(),
             encoded,
+            hash,
         };
         res.stack.push(hash);
         res
@@ -384,7 +387,7 @@ impl<R: AsyncStreamReader> ResponseDecoder<R> {
 
     /// Hash of the blob we are currently getting
     pub fn hash(&self) -> &blake3::Hash {
-        &self.0.stack[0]
+        &self.0.hash
     }
 
     async fn next0(&mut self, chunk: BaoChunk) -> std::result::Result<BaoContentItem, DecodeError> {
